@@ -200,6 +200,50 @@ def liveness_is_per_ike_sa(v):
         w.close()
 
 
+def crash_after_ike_rekey(v):
+    """The crash bound holds for an IKE_SA whatever created it: the IKE_SA is rekeyed (by either endpoint), the old one is deleted, and the peer dies BEFORE any
+    message has travelled on the successor.  The successor is probed after its own DPD interval and it is gone, with every kernel SA, within DPD interval +
+    retransmission budget (IkeTimers.tla CrashBound, started from an IKE_SA that never received anything)."""
+    dpd = 10
+    cc = T.code_constants()
+    budget = dpd + cc['RetxDelay'] * sum(range(1, cc['MaxRetx'] + 1)) + cc['MaxRetx'] + 3
+    out = {}
+    for starter in ('A', 'B'):
+        w = wd.World(seed=common.SEED, opts={'dpd': dpd, 'lifetime': 100000}, jitter=0.0)
+        try:
+            w.establish('A')
+            old = w.sas(starter)[0]
+            keep, old.rekey_ike_sa_at = old.rekey_ike_sa_at, w.now - 1
+            m, cur = w.timer(starter, old, 'check_rekey_ike_sa_timer'), starter
+            old.rekey_ike_sa_at = keep
+            while m is not None:
+                nxt = w.peer_of(cur)
+                m, cur = w.dispatch(nxt, m, cur), nxt
+            if [x.state.name for x in w.sas('A')] != ['ESTABLISHED'] or [x.state.name for x in w.sas('B')] != ['ESTABLISHED'] or w.sas('A')[0] is old or not w.kernel['A'].sad:
+                raise common.MachineryError(f'the IKE_SA rekey started by {starter} did not leave one established successor per endpoint: '
+                                            f'{[x.state.name for x in w.sas("A")]} / {[x.state.name for x in w.sas("B")]}')
+            succ = w.sas('A')[0]
+            t0, probes = w.now, 0                           # the peer dies now
+            for tick in range(budget + 10):
+                w.now += 1.0
+                for kind, sa, d in w.sweep('A'):
+                    if d is not None:
+                        probes += 1
+                if succ not in w.ctl['A'].ike_sas:
+                    break
+            elapsed, still, kern = w.now - t0, succ in w.ctl['A'].ike_sas, len(w.kernel['A'].sad)
+            out[starter] = {'transmissions': probes, 'removed_after_s': None if still else elapsed}
+            if still or kern or probes == 0 or elapsed > budget:
+                v.violation(f'IKE_SA rekey started by {starter}, then the peer dies before anything travels on the successor: after {elapsed:.0f} s the successor is '
+                            f'{"still listed" if still else "gone"}, {kern} kernel SAs left, {probes} transmissions (DPD interval {dpd} s, bound {budget} s)',
+                            {'starter': starter, 'probes': probes}, signature={'component': 'liveness:successor', 'starter': starter})
+        except wd.Escape as ex:
+            v.violation(f'crash after IKE_SA rekey ({starter}): {ex}', {}, signature={'component': 'liveness:escape'})
+        finally:
+            w.close()
+    v.coverage['crash_after_ike_rekey'] = {'dpd': dpd, 'bound_s': budget, 'by_starter': out}
+
+
 def run(tier, replay=None):
     v = common.Verdict('C13', tier, 'model_checking')
     if replay:
@@ -221,6 +265,7 @@ def run(tier, replay=None):
     timer_models(v, tier)
     shared_proposal(v)
     liveness_is_per_ike_sa(v)
+    crash_after_ike_rekey(v)
     jitter_and_real_values(v)
     v.assumptions += ['spacing is asserted per schedule class (fine sweeps: two-sided; uniform tick with one sweep per tick: non-decreasing; '
                       'mixed schedules: budget, identity and give-up only - observation O-9)',
